@@ -121,7 +121,7 @@ def check(repo: Repo, rep: Report) -> None:
     drains = [s for s in sites(run) if ev(s.node) == "DRAIN"]
     restores = [s for s in sites(run) if ev(s.node) == "IDLE=True"]
     def _reraises(h: ast.ExceptHandler) -> bool:
-        catches_all = h.type is None or u(h.type) in ("BaseException", "Exception")
+        catches_all = h.type is None or u(h.type) == "BaseException"    # KeyboardInterrupt / CancelledError abort actions too
         return catches_all and any(isinstance(x, ast.Raise) and x.exc is None for x in ast.walk(h))
     def _on_failure(r, d) -> bool:
         # the restore runs when the drain raises: in a `finally`, or in a catch-all handler that re-raises, of a try around it
@@ -132,6 +132,13 @@ def check(repo: Repo, rep: Report) -> None:
     rep.ob("N5-idle-restored", run, "when the drain raises: with lock: _idle = True", ok,
            "idle is not restored (under the lock, on the failure path of the drain) after an action raises: every later "
            "schedule only enqueues and nothing ever runs")
+    # N10: an immediate action is due NOW (an absolute time), so that it queues behind timed actions that are already overdue
+    rep.rule("N10-immediate-is-now", "TrampolineScheduler.schedule = schedule_absolute(self.now, action, state)", floor=1)
+    tsch = repo.fn("reactivex/scheduler/trampolinescheduler.py", "TrampolineScheduler.schedule")
+    dels = [x.node for x in sites(tsch) if isinstance(x.node, ast.Call) and dotted(x.node.func) == "self.schedule_absolute"]
+    rep.ob("N10-immediate-is-now", tsch, f"schedule: `{short(dels[0], 60) if dels else '?'}`", len(dels) == 1 and dels[0].args and u(dels[0].args[0]) == "self.now",
+           "an immediate action is not stamped with the current time (`self.now`) as its absolute due time: with an epoch-zero / relative value it "
+           "sorts before every pending timed action, so it overtakes timed actions that are already overdue")
     # N9: the drain -> idle transition is one critical section with the emptiness test that ends the drain
     rep.rule("N9-idle-with-emptiness", "the drain goes idle in the critical section in which it found the queue empty; nothing resets the trampoline after a normal drain", floor=2)
     def _empty(e, p) -> bool:
